@@ -17,9 +17,15 @@ for cxx in ('g++', 'clang++'):
 # a target-like variation: plain char unsigned (the default on ARM / PowerPC Linux)
 CONFIGS.append(dict(_cfg('g++', 2, 'c++17'), id='g++-O2-c++17-uchar', extra=['-funsigned-char']))
 CONFIGS.append(dict(_cfg('clang++', 2, 'c++20'), id='clang++-O2-c++20-uchar', extra=['-funsigned-char']))
+# size-optimised build
+CONFIGS.append(dict(_cfg('g++', 's', 'c++17'), id='g++-Os-c++17'))
+CONFIGS.append(dict(_cfg('clang++', 'z', 'c++20'), id='clang++-Oz-c++20'))
+# release-style builds: assertions compiled out
+CONFIGS.append(dict(_cfg('g++', 3, 'c++20'), id='g++-O3-c++20-ndebug', extra=['-DNDEBUG']))
+CONFIGS.append(dict(_cfg('clang++', 2, 'c++17', abacus=True), id='clang++-O2-c++17-abacus-ndebug', extra=['-DNDEBUG']))
 _BY = {c['id']: c for c in CONFIGS}
 
-QUICK = ['g++-O2-c++17', 'clang++-O2-c++20', 'g++-O0-c++17-abacus']
+QUICK = ['g++-O2-c++17', 'clang++-O2-c++20', 'g++-O0-c++17-abacus', 'g++-O3-c++20-ndebug', 'g++-Os-c++17']
 QUICK_SAN = QUICK + ['clang++-O1-c++17-san']
 THOROUGH = [c['id'] for c in CONFIGS if not c['san']]      # includes the -funsigned-char variations
 THOROUGH_SAN = [c['id'] for c in CONFIGS]
